@@ -39,3 +39,12 @@ Definition run_lcov_spec (b : bool) (f : lfile) :=
   (render_file f, wf_file f, existsb KnownClass_fnda_first (l_sections f),
    show_results (parse_lcov (render_file f) b),
    map (fun s => (s_name s, cov_to_l (denote b (s_recs s).*1))) (l_sections f)).
+
+From Grcov Require Export Model.Markers.
+Definition show_ftype (f : ftype) : N * N :=
+  match f with FLine n => (0, n) | FBranch n => (1, n) | FBoth n => (2, n) end.
+Definition flags_of (t : bool * bool * bool * bool * bool * bool) : flags :=
+  let '(a, b, c, d, e, f) := t in mkFlags a b c d e f.
+Definition run_markers (en rd : bool) (ls : list (bool * bool * bool * bool * bool * bool)) (c : cov_l) :=
+  let fs := create en rd (map flags_of ls) in
+  (map show_ftype fs, cov_to_l (apply_filters fs (cov_of_l c))).
